@@ -115,6 +115,15 @@ def run(spec, R):
                     t = treegen.licensed_tree(rng, lang, token_fn, max_leaves=8)
                 sents.append([ScoredTree(t, -1.5)])
                 kinds.append('parsed')
+                if rng.random() < 0.3:
+                    # an n-best list: further derivations of the same tokens (other supertags, other shapes)
+                    for j in range(rng.randint(1, 2)):
+                        try:
+                            alt = treegen.licensed_tree(rng, lang, token_fn, max_leaves=len(t.tokens) + 2, tokens=t.tokens)
+                        except LookupError:
+                            break
+                        sents[-1].append(ScoredTree(alt, -2.0 - j))
+                        R.count('render:nbest-alternatives')
         if 'parsed' not in kinds:
             t = treegen.licensed_tree(rng, lang, token_fn, max_leaves=6)
             sents.append([ScoredTree(t, -0.5)])
@@ -161,18 +170,21 @@ def run(spec, R):
                 else:
                     R.violation(f'render:{fmt}:batch-poisoned', f'{fmt} output of a batch cannot be decoded: {e!r}', dict(wit, output=text[:1200]))
                 continue
-            if len(recs) != len(sents):
-                R.violation(f'render:{fmt}:batch-poisoned', f'{len(recs)} records rendered for {len(sents)} sentences', dict(wit, output=text[:1200]))
+            if len(recs) != sum(len(s) for s in sents):
+                R.violation(f'render:{fmt}:batch-poisoned', f'{len(recs)} records rendered for {len(sents)} sentences with '
+                            f'{sum(len(s) for s in sents)} trees', dict(wit, output=text[:1200]))
                 continue
-            for si, (s, k, rec) in enumerate(zip(sents, kinds, recs)):
+            at = 0
+            for si, (s, k) in enumerate(zip(sents, kinds)):
+                mine, at = recs[at:at + len(s)], at + len(s)
                 if k != 'parsed':
                     continue
                 try:
-                    alone = C07.DECODERS[fmt](to_string(copy.deepcopy([s]), format=fmt), lang)[0]
+                    alone = C07.DECODERS[fmt](to_string(copy.deepcopy([s]), format=fmt), lang)
                 except Exception:
                     continue
                 R.count('render:compared-with-standalone')
-                if strip(alone['tree']) != strip(rec['tree']):
+                if [strip(a['tree']) for a in alone] != [strip(r['tree']) for r in mine]:
                     R.violation(f'render:{fmt}:batch-poisoned', f'sentence {si + 1} renders differently inside the batch than alone',
                                 dict(wit, output=text[:1200]))
         if R.out_of_time():
